@@ -316,6 +316,17 @@ class C12(Check):
         for i in range(ctx.n(20, 400)):
             hists.append(('gen', MM.gen_history(rng, rng.randint(5, 18))))
         self.memo_histories(ctx, hists)
+        self.oracle_capture(ctx)
+
+    def oracle_capture(self, ctx):
+        """the former finding C12-capture-sheets-shared (fixed by a279ab6): two CSSCaptureHTMLParser objects, two documents —
+        what the second one reports must not contain the first document's sheets (fresh process)"""
+        res = run_worker({'mode': 'capture'})
+        ctx.case(key='capture-two-parsers', nontrivial=res['first_parser_sees'] == 1, kind='capture',
+                 sample=res)
+        if res['second_parser_sees']:
+            ctx.violate('T12.1 what a CSSCaptureHTMLParser reports does not depend on the documents other parser objects '
+                        'were fed before', {'capture': 'two parsers, two documents'}, res)
 
     def memo_histories(self, ctx, hists):
         results = list(self.pool.map(lambda h: run_worker({'mode': 'memo', 'ops': h[1]}), hists))
@@ -347,7 +358,13 @@ class C12(Check):
                 ctx.count('memo:re.error-not-modelled')
                 break
             if mobs is not None:
-                want = mobs[i + 2] if i + 2 < len(mobs) else '(missing)'
+                want = mobs[2 * i + 2] if 2 * i + 2 < len(mobs) else '(missing)'
+                wrun = mobs[2 * i + 3] if 2 * i + 3 < len(mobs) else '(missing)'
+                grun = MM.impl_obs(st['run'])
+                if not want.startswith('err diverges') and wrun != grun and not differed:
+                    differed = True
+                    ctx.disagree('Tokenizer.tokenize re-binds its tables (memo) after step %d' % i,
+                                 {'memo_ops': ops[:i + 1]}, grun[:600], wrun[:600])
                 if want.startswith('err diverges'):
                     ctx.count('memo:model-nofuel')
                     break
@@ -372,14 +389,10 @@ class C12(Check):
                                  'lengths': [len(st.get('tables') or []), len(f.get('tables') or [])]})
                     break
             if st['stale']:
-                # region of the known finding: a settings.set happened after the object was created
-                if seen_set:
-                    ctx.violate('every living Tokenizer has the tables a new Tokenizer() would get', None, None,
-                                known=MM.KNOWN_STALE)
-                else:
-                    ctx.violate('every living Tokenizer has the tables a new Tokenizer() would get',
-                                {'memo_ops': ops[:i + 1]}, {'stale': st['stale']})
-                    break
+                # (the former finding C12-settings-stale-tokenizers is fixed by 7a36f78: no region left)
+                ctx.violate('every living Tokenizer runs with the tables a new Tokenizer() would get',
+                            {'memo_ops': ops[:i + 1]}, {'stale': st['stale']})
+                break
         ctx.case(key=json.dumps(ops, sort_keys=True), nontrivial=('ok:hit' in kinds and len(kinds) >= 3),
                  kind='memo:%s:%s' % (tag if tag == 'gen' else 'fixed', 'set' if seen_set else 'noset'),
                  sample={'memo_ops': ops[:6]})
